@@ -63,7 +63,15 @@ type conf struct {
 	upPort  string
 }
 
-var sites = []string{"site-a.test", "site-b.test", "site-c.test"}
+// the last site is an IPv6 literal: unbracketed in the credentials table, bracketed on the wire
+var sites = []string{"site-a.test", "site-b.test", "site-c.test", "2001:db8::6"}
+
+func wireHost(h string) string {
+	if strings.Contains(h, ":") {
+		return "[" + h + "]"
+	}
+	return h
+}
 
 // refMatch: documented precedence exact host:port, *:port, host:*, *:*.
 func refMatch(table []entry, host, port string) *entry {
@@ -192,7 +200,7 @@ func setup(run *lib.Run, r *lib.RNG, idx int) *conf {
 		Creds: hpus,
 		Cfg: func(cfg *forwarder.HTTPProxyConfig) {
 			cfg.MITM = forwarder.DefaultMITMConfig()
-			cfg.MITMDomains = forwarder.MatchFunc(func(h string) bool { return strings.HasPrefix(h, "site-") })
+			cfg.MITMDomains = forwarder.MatchFunc(func(h string) bool { return strings.HasPrefix(h, "site-") || strings.Contains(h, "2001:db8::6") })
 			if c.basic {
 				cfg.BasicAuth = url.UserPassword(c.client.user, c.client.pass)
 			}
@@ -271,7 +279,7 @@ func (c *conf) wantUpstreamAuth() string {
 }
 
 func main() {
-	run := lib.Start("C06", "generated credential tables (exact, *:port, host:*, *:*, overlapping; entries for the upstream's own host:port) x upstream selection (none, static http/https/socks5 with userinfo / table entry / both / none, PAC + table entry) x targets (3 sites, explicit and default ports, http, https via MITM, raw CONNECT tunnels) x client shapes (Proxy-Authorization once / repeated / nominated by Connection / odd case, own Authorization present or not); every secret is a unique canary; hops record Authorization / Proxy-Authorization per request and raw bytes are scanned for canaries in raw, base64(user:pass) and 3 base64 alignments; distinct = (config, scheme, port kind, client shape, matched-entry kind) signatures")
+	run := lib.Start("C06", "generated credential tables (exact, *:port, host:*, *:*, overlapping; entries for the upstream's own host:port) x upstream selection (none, static http/https/socks5 with userinfo / table entry / both / none, PAC + table entry) x targets (3 named sites and one IPv6 literal, explicit and default ports, http, https via MITM, raw CONNECT tunnels) x client shapes (Proxy-Authorization once / repeated / nominated by Connection / odd case, own Authorization present or not); every secret is a unique canary; hops record Authorization / Proxy-Authorization per request and raw bytes are scanned for canaries in raw, base64(user:pass) and 3 base64 alignments; distinct = (config, scheme, port kind, client shape, matched-entry kind) signatures")
 	root := run.RNG()
 	nConf := run.N(40, 600)
 	nReq := 30
@@ -361,7 +369,7 @@ func runConf(run *lib.Run, r *lib.RNG, c *conf, base, nReq int) {
 		}
 		switch kind {
 		case "http":
-			hp := host
+			hp := wireHost(host)
 			if port != "" {
 				hp += ":" + port
 			}
@@ -392,7 +400,7 @@ func runConf(run *lib.Run, r *lib.RNG, c *conf, base, nReq int) {
 				c.checkOriginSide(run, idx, rec, m, ownAuth, wit, c.up != nil)
 			}
 		case "https":
-			hp := host + ":" + port
+			hp := wireHost(host) + ":" + port
 			fs := append([]lib.Field{{"Host", hp}}, pa...)
 			st.C.Write(lib.EncodeRequest("CONNECT", hp, "HTTP/1.1", fs, nil, false, nil, "", nil))
 			res, pst, _ := st.ReadResponse("CONNECT", 15*time.Second)
@@ -414,7 +422,7 @@ func runConf(run *lib.Run, r *lib.RNG, c *conf, base, nReq int) {
 			// over http are different hops for the credential table)
 			innerHost := hp
 			if port == "443" && r.Bool() {
-				innerHost = host
+				innerHost = wireHost(host)
 			}
 			ifs := []lib.Field{{"Host", innerHost}, {"X-Vid", id}}
 			if c.basic || r.Bool() {
